@@ -157,6 +157,21 @@ def build_fn(src_root, d, contract, hint_specs, tailproof, vacuity):
             raise GenError(f"anchor lost: no `loop` with `break <value>` in {d['fn']}")
         subs_done.append(f'break-with-value desugared ({n_done} break statements): loop {{ .. break E; .. }} =====> {{ let mut __brk = None; loop {{ .. {{ __brk = Some(E); break; }} .. }} __brk.unwrap() }}')
     for a_, b_ in d.get('_subs', []):
+        if isinstance(a_, tuple) and a_[0] == '@afterlet':
+            # ghost text placed right after the top-level statement `let NAME = ..;` (robust against reordering of later statements)
+            def has_top_let(t):
+                code = rsparse._scan_mask(t)
+                for mm in re.finditer(r'\blet\s+(mut\s+)?' + re.escape(a_[1]) + r'\b', t):
+                    if code[mm.start()] and sum((1 if c in '([{' else -1) for q, c in enumerate(t[:mm.start()]) if code[q] and c in '([{)]}') == 0:
+                        return True
+                return False
+            # a part ends at the first top-level `;`, so a part containing a top-level `let NAME` ends with that very statement
+            hits = [k for k, (t, _s) in enumerate(parts) if has_top_let(t)]
+            if len(hits) != 1 or hits[0] + 1 >= len(parts):
+                raise GenError(f"anchor lost: top-level `let {a_[1]} = ..;` not found exactly once in {d['fn']}")
+            k = hits[0] + 1
+            parts[k] = ('\n' + b_ + '\n' + parts[k][0], parts[k][1])
+            continue
         if isinstance(a_, tuple):
             # span substitution: from the (unique) start text through the (unique) end text
             st_, en_ = a_
@@ -395,6 +410,14 @@ def generate(template_path, src_root, out_path, vacuity=False):
                         buf_.append(lines[i])
                         i += 1
                     d.setdefault('_subs', []).append(((a_.strip(), e_.strip()), '\n'.join(buf_)))
+                elif s2.startswith('//@afterlet '):
+                    nm_ = s2[len('//@afterlet '):].strip()
+                    buf_ = []
+                    i += 1
+                    while lines[i].strip() != '//@endsub':
+                        buf_.append(lines[i])
+                        i += 1
+                    d.setdefault('_subs', []).append((('@afterlet', nm_), '\n'.join(buf_)))
                 elif s2.startswith('//@sub '):
                     a_, b_ = s2[len('//@sub '):].split(' =====> ')
                     d.setdefault('_subs', []).append((a_.strip(), b_.strip()))
